@@ -105,18 +105,34 @@ Definition C15_full : Prop :=
   forall e : texpr, printable_t e = true ->
   exists u, parse (pp e) = Ok [StExpr u] [] /\ forall e', erase e' = u -> pp e' = pp e.
 
-(* The excluded class is real: the printer drops the parentheses of a sum (product) on the
-   right, so the echo is read back re-associated.  The values agree in exact arithmetic, the
-   trees do not; with the scalar-identifier fusion the echo is then not a fixed point (open
-   finding C15-product-reassociation-not-fixed-point, pinned by numbat's own test
-   typed_ast::tests::pretty_print_basic). *)
+(* The excluded class is real, and since the repair of the re-association findings it is small: the
+   printer drops the parentheses of a sum (product) on the right only in a chain of plain literals
+   (`2 + (3 + 4)` is echoed `2 + 3 + 4`, pinned by numbat's own test pretty_print_basic), which is read
+   back re-associated: same value up to rounding, another tree.  Every other sum / product on the right
+   keeps its parentheses and is inside the theorems above. *)
 Definition x_ (c : N) : texpr := XIdent [c].
 Theorem C15_reassociation_refuted :
   exists e, printable_t e = false
-    /\ parse (pp e) = Ok [StExpr (EBin Add (EBin Add (EIdent [97]) (EIdent [98])) (EIdent [99]))]%N []
-    /\ erase e = EBin Add (EIdent [97]) (EBin Add (EIdent [98]) (EIdent [99]))%N.
-Proof. exists (XBin Add (x_ 97) (XBin Add (x_ 98) (x_ 99))). vm_compute. repeat split; reflexivity. Qed.
+    /\ parse (pp e) = Ok [StExpr (EBin Add (EBin Add (EScalar [49]) (EScalar [50])) (EScalar [51]))]%N []
+    /\ erase e = EBin Add (EScalar [49]) (EBin Add (EScalar [50]) (EScalar [51]))%N.
+Proof.
+  exists (XBin Add (XScalar false [49]%N) (XBin Add (XScalar false [50]%N) (XScalar false [51]%N))).
+  vm_compute. repeat split; reflexivity.
+Qed.
 Print Assumptions C15_reassociation_refuted.
+
+(* the sum and the product of the two (former) findings keep their parentheses and are exact now:
+   -(2 s) + (2 s + min)   and   2000 * (pi * 2 m) *)
+Example C15_ex_reassociation_repaired :
+  let s2 := XBin Mul (XScalar false [50]%N) (XUnit [115]%N) in
+  let e1 := XBin Add (XNeg s2) (XBin Add s2 (XUnit [109; 105; 110]%N)) in
+  let e2 := XBin Mul (XScalar false [50; 48; 48; 48]%N) (XBin Mul (x_ 112) (XBin Mul (XScalar false [50]%N) (XUnit [109]%N))) in
+  printable_t e1 = true /\ exact_t e1 = true /\ parse (pp e1) = Ok [StExpr (erase e1)] []
+  /\ pp e1 = [TLParen; TMinus; TLParen; TNumber [50]; TIdent [115]; TRParen; TRParen; TPlus; TLParen; TNumber [50];
+              TIdent [115]; TPlus; TIdent [109; 105; 110]; TRParen]%N
+  /\ printable_t e2 = true /\ exact_t e2 = true /\ parse (pp e2) = Ok [StExpr (erase e2)] []
+  /\ pp e2 = [TNumber [50; 48; 48; 48]; TMultiply; TLParen; TIdent [112]; TMultiply; TNumber [50]; TIdent [109]; TRParen]%N.
+Proof. vm_compute. repeat split; reflexivity. Qed.
 
 (* ---- non-vacuity: the shapes that were echoed wrongly before the fixes *)
 Definition n_ (c : N) : texpr := XScalar false [c].
